@@ -1,6 +1,6 @@
 use crate::common::now;
 use crate::net::EventLoops;
-use crate::syscall::{is_blocking, reset_errno, set_blocking, set_non_blocking, recv_time_limit};
+use crate::syscall::{caller_is_blocking, reset_errno, nio_leave, nio_enter, recv_time_limit};
 use libc::{msghdr, ssize_t};
 use std::ffi::c_int;
 use std::io::{Error, ErrorKind};
@@ -50,13 +50,13 @@ impl<I: RecvmsgSyscall> RecvmsgSyscall for NioRecvmsgSyscall<I> {
             )
         };
         let total: usize = vec.iter().map(|v| v.iov_len).sum();
-        let blocking = is_blocking(fd);
+        let blocking = caller_is_blocking(fd);
         if !blocking || 0 == total {
             // the caller asked for non-blocking semantics (never wait on its behalf),
             // or for nothing at all (a zero-length request returns what the kernel says)
             return self.inner.recvmsg(fn_ptr, fd, msg, flags);
         }
-        set_non_blocking(fd);
+        nio_enter(fd);
         let start_time = now();
         let mut left_time = recv_time_limit(fd);
         let mut done = 0usize;
@@ -101,7 +101,7 @@ impl<I: RecvmsgSyscall> RecvmsgSyscall for NioRecvmsgSyscall<I> {
                 break;
             }
         }
-        set_blocking(fd);
+        nio_leave(fd);
         if done > 0 {
             // report what was really transferred, -1 only if nothing was
             reset_errno();
